@@ -1244,6 +1244,14 @@ class ToRx:
             for kind, p, b in reversed(built):
                 arms = '(.%s %s %s %s)' % ('repArm' if kind == 'rep' else 'arm', p, b, arms)
             return '(.matchOn %s %s)' % (s, arms)
+        if k == 'struct':
+            fields, base = e[2], e[3]
+            # `Quantity { dimension: PhantomData, units: PhantomData, value }` / `Quantity { value, ..self }`: the
+            # constructor `Quantity{value}` applied to the value expression (the phantom fields carry no data)
+            if (set(fields) == {'dimension', 'units', 'value'} and base is None and is_phantom(fields['dimension'])
+                    and is_phantom(fields['units'])) or (set(fields) == {'value'} and base == ['var', 'self']):
+                return '(.call1 %d %s)' % (self.n.code('c', 'Quantity{value}'), self.expr(fields['value']))
+            raise BodyError('struct literal')
         if k == 'macro_rule':
             c = self.n.code('c', '%s!(@%s)' % (e[1], e[2]))
             a = self.args(e[3])
